@@ -1,5 +1,18 @@
 package main
 
+import (
+	"go.brendoncarroll.net/p2p/p/p2pke"
+)
+
 // extra emits the facts that need hooks or source-text analysis; it grows with the models.
 func extra(w func(string, ...any), repo string) {
+	n0, n1, n2, n3, npost, pcb, pts := p2pke.VerifConstants()
+	w("def p2pkeNonceInitHello : Nat := %d", n0)
+	w("def p2pkeNonceRespHello : Nat := %d", n1)
+	w("def p2pkeNonceInitDone : Nat := %d", n2)
+	w("def p2pkeNonceRespDone : Nat := %d", n3)
+	w("def p2pkeNoncePostHandshake : Nat := %d", npost)
+	w("def p2pkePurposeChannelBinding : String := %q", pcb)
+	w("def p2pkePurposeTimestamp : String := %q", pts)
+	selectSkeletons(w, repo)
 }
